@@ -174,6 +174,36 @@ def side_doors(run, rng):
     if "activeCovSubscriptions" in props:
         return fail("property-added-to-one-object-shows-on-another", object=("device", 6), property="activeCovSubscriptions", through="ReadPropertyMultiple all")
     run.count("added_property_sessions")
+    # 2a. an array property the application filled with a plain Python list (in the constructor, or by assignment later): over
+    #     the wire it is the array with those elements - index 0 its length, index k its k-th element
+    texts = ["t%d" % rng.randrange(100) for _ in range(rng.choice([1, 2, 3, 5]))]
+    msv = MultiStateValueObject(objectIdentifier=("multiStateValue", 9), objectName="m9", presentValue=1, numberOfStates=len(texts), stateText=list(texts))
+    dev.app.add_object(msv)
+    CLOCK.settle()
+    for phase in ("constructor", "assignment"):
+        if phase == "assignment":
+            texts = ["u%d" % rng.randrange(100) for _ in range(rng.choice([1, 2, 4]))]
+            msv.stateText = list(texts)
+        hist.append(("stateText given as a plain list", phase, list(texts)))
+        for ix in [0, 1, len(texts), len(texts) + 1]:
+            req = ReadPropertyRequest(objectIdentifier=("multiStateValue", 9), propertyIdentifier="stateText", propertyArrayIndex=ix, destination=dev.address)
+            ans = client.call(req)
+            run.count("reads")
+            if ix == 0:
+                ok = isinstance(ans, ReadPropertyACK) and ans.propertyValue.cast_out(Unsigned) == len(texts)
+            elif ix <= len(texts):
+                ok = isinstance(ans, ReadPropertyACK) and str(ans.propertyValue.cast_out(CharacterString)) == texts[ix - 1]
+            else:
+                ok = isinstance(ans, ErrorPDU) and (str(ans.errorClass), str(ans.errorCode)) == ("property", "invalidArrayIndex")
+            if not ok:
+                got = (str(ans.errorClass), str(ans.errorCode)) if isinstance(ans, ErrorPDU) else type(ans).__name__
+                if isinstance(ans, ReadPropertyACK):
+                    try:
+                        got = repr(ans.propertyValue.cast_out(CharacterString if ix else Unsigned))
+                    except Exception:
+                        got = "a value of another type"
+                return fail("array-filled-with-a-plain-list-is-indexed-wrongly", given_in=phase, elements=list(texts), index=ix, answer=got)
+        run.count("plain_list_array_reads_checked")
     # 2b. an ordinary object's identifier is read-only: whatever identifier is written, the refusal says so
     for new in (("analogValue", 7), (rng.choice(["binaryValue", "device", "multiStateValue"]), rng.randrange(1, 9))):
         hist.append(("write objectIdentifier of an ordinary object", ("analogValue", 2), new))
